@@ -224,13 +224,13 @@ pub fn run(tier: Tier) -> i32 {
         };
         let fp = case.engine.condition.get_fperiod();
         let nframes = oneshot.len() / fp;
-        let depth = (nframes + 3).min(tier.pick(6, 8));
+        let depth = (nframes + 3).min(tier.pick(6, 7));
         let extras = vec![0, 1, fp, 2 * fp];
         let mut counts = Vec::new();
         for threads in [4usize, 2] {
             // the second exploration only cross-checks the explorer's own determinism; in the quick tier it is
             // skipped for the large cases
-            if threads == 2 && tier == Tier::Quick && counts.first().map(|c| *c > 8000).unwrap_or(false) {
+            if threads == 2 && counts.first().map(|c| *c > tier.pick(8000, 30000)).unwrap_or(false) {
                 counts.push(counts[0]);
                 continue;
             }
